@@ -3,7 +3,7 @@
 From Coq Require Import Permutation.
 From RV Require Import Modifiers.Model Modifiers.Order Modifiers.Agg.
 
-Definition avals (a : aggspec) (v : var) (rows : list sol) : list term :=
+Definition avals (a : aggspec) (v : texpr) (rows : list sol) : list term :=
   let vals := bound (ovals v rows) in if a_distinct a then dedup term_eqb vals else vals.
 
 (* with DISTINCT the values are taken once each *)
@@ -32,37 +32,50 @@ Theorem count_star_reading a rows r :
   r = Some (TInt (Z.of_nat (length (if a_distinct a then dedup sol_eqb rows else rows)))).
 Proof. unfold agg_adm. intros ->. apply oterm_eqb_eq. Qed.
 
-(* SUM: over numeric values the sum (same datatype, same value); an error
-   (unbound) as soon as one value is not numeric *)
+(* does the argument expression fail in some solution of the group?  (an unbound plain
+   variable does not count: such solutions are left out) *)
+Definition arg_error (v : texpr) (rows : list sol) : bool :=
+  negb (is_var v) && has_unbound (ovals v rows).
+
+(* SUM: over numeric values the sum (same datatype, same value); an error (unbound) as soon
+   as one value is not numeric or the argument expression is an error in some solution *)
 Theorem sum_reading a v rows r :
   a_arg a = Some v -> a_kind a = ASum -> agg_adm a rows r = true ->
-  (forallb is_numeric (avals a v rows) = true ->
+  (arg_error v rows = false -> forallb is_numeric (avals a v rows) = true ->
      exists t, r = Some t /\ num_same t (lit_of_num (sum_nums (nums_of (avals a v rows)))) = true)
-  /\ (forallb is_numeric (avals a v rows) = false -> r = None).
+  /\ (arg_error v rows = true \/ forallb is_numeric (avals a v rows) = false -> r = None).
 Proof.
-  unfold agg_adm, avals. intros -> ->.
-  destruct (forallb is_numeric _); intros H; split; intros E; try discriminate.
-  - destruct r as [t|]; [eauto|discriminate].
-  - destruct r; [discriminate|reflexivity].
+  unfold agg_adm, avals, arg_error. intros -> ->.
+  destruct (negb (is_var v) && has_unbound (ovals v rows)).
+  - intros H. split; [discriminate|]. intros _. destruct r; [discriminate|reflexivity].
+  - destruct (forallb is_numeric _); intros H; split.
+    + intros _ _. destruct r as [t|]; [eauto|discriminate].
+    + intros [E|E]; discriminate.
+    + intros _ E; discriminate.
+    + intros _. destruct r; [discriminate|reflexivity].
 Qed.
 
 Theorem avg_reading a v rows r :
   a_arg a = Some v -> a_kind a = AAvg -> agg_adm a rows r = true ->
-  (forallb is_numeric (avals a v rows) = true ->
+  (arg_error v rows = false -> forallb is_numeric (avals a v rows) = true ->
      (avals a v rows = [] -> r = Some (TInt 0))
      /\ (avals a v rows <> [] -> exists t, r = Some t /\
            num_same t (avg_lit (sum_nums (nums_of (avals a v rows)))
                                (Z.of_nat (length (avals a v rows)))) = true))
-  /\ (forallb is_numeric (avals a v rows) = false -> r = None).
+  /\ (arg_error v rows = true \/ forallb is_numeric (avals a v rows) = false -> r = None).
 Proof.
-  unfold agg_adm, avals. intros -> ->.
-  destruct (forallb is_numeric _); intros H; split; intros E; try discriminate.
-  - split; intros E2.
-    + rewrite E2 in H. destruct r as [t|]; [|discriminate].
-      destruct (term_eqb_spec t (TInt 0)); congruence.
-    + destruct (if a_distinct a then _ else _) as [|x l]; [congruence|].
-      destruct r as [t|]; [eauto|discriminate].
-  - destruct r; [discriminate|reflexivity].
+  unfold agg_adm, avals, arg_error. intros -> ->.
+  destruct (negb (is_var v) && has_unbound (ovals v rows)).
+  - intros H. split; [discriminate|]. intros _. destruct r; [discriminate|reflexivity].
+  - destruct (forallb is_numeric _); intros H; split.
+    + intros _ _. split; intros E2.
+      * rewrite E2 in H. destruct r as [t|]; [|discriminate].
+        destruct (term_eqb_spec t (TInt 0)); congruence.
+      * destruct (if a_distinct a then _ else _) as [|x l]; [congruence|].
+        destruct r as [t|]; [eauto|discriminate].
+    + intros [E|E]; discriminate.
+    + intros _ E; discriminate.
+    + intros _. destruct r; [discriminate|reflexivity].
 Qed.
 
 Theorem min_reading a v rows r :
